@@ -132,7 +132,7 @@ static int val_index(void *v);
 
 /* ---- notifier expectations ---- */
 struct expect { int32_t ev; int key; int oldv; int newv; };
-static struct expect exp_q[4];
+static struct expect exp_q[40];
 static int exp_n, exp_i;
 static int notify_errors;
 static int free_calls_for_val[6];
@@ -171,6 +171,26 @@ static void notify_cb(uint32_t event, char *key, void *old_value, void *value, v
 		}
 		return;
 	}
+#if ALPHABET == 18
+	/* iterators may be open: DELETED/FREE of an entry an iterator sits on may be delivered later (when the
+	 * iterator moves on or is freed).  Match against the pool of outstanding expectations: per key in order. */
+	{
+		int hit = -1;
+		for (int i = 0; i < exp_n; i++) {
+			if (exp_q[i].ev == 0) continue;
+			/* deferred delivery may reorder events of one key (e.g. INSERTED of a re-put before the late DELETED) */
+			if (exp_q[i].key == key_index(key) && exp_q[i].ev == (int32_t)event && exp_q[i].oldv == val_index(old_value)) { hit = i; break; }
+		}
+		PROP(hit >= 0, "notifier: no callback beyond what the dictionary transitions prescribe");
+		if (hit < 0) return;
+		struct expect *e = &exp_q[hit];
+		PROP((int32_t)event == e->ev, "notifier: event kind as prescribed");
+		PROP(val_index(old_value) == e->oldv, "notifier: old value as prescribed");
+		if (e->ev != QB_MAP_NOTIFY_FREE) PROP(val_index(value) == e->newv, "notifier: new value as prescribed");
+		e->ev = 0;        /* consumed */
+		return;
+	}
+#endif
 	PROP(exp_i < exp_n, "notifier: no callback beyond what the dictionary transition prescribes");
 	if (exp_i >= exp_n) return;
 	struct expect *e = &exp_q[exp_i++];
@@ -185,7 +205,12 @@ static void expect(int32_t ev, int key, int oldv, int newv)
 	exp_q[exp_n].ev = ev; exp_q[exp_n].key = key; exp_q[exp_n].oldv = oldv; exp_q[exp_n].newv = newv;
 	exp_n++;
 }
+#if ALPHABET == 18
+#define EXPECT_DONE(tag) ((void)0)          /* deferred delivery allowed while iterators are open; settled at the end */
+static int expect_outstanding(void) { int n = 0; for (int i = 0; i < exp_n; i++) if (exp_q[i].ev != 0) n++; return n; }
+#else
 #define EXPECT_DONE(tag) do { PROP(exp_i == exp_n, tag ": every prescribed notification was delivered"); exp_n = exp_i = 0; } while (0)
+#endif
 
 static qb_map_t *m;
 #define NIT 2
@@ -196,7 +221,40 @@ static int it_present_all[NIT][NKEYS];  /* present during the whole life of the 
 static int it_ever[NIT][NKEYS];         /* ever present during the life of the iterator */
 static int it_inserted[NIT];            /* an insertion happened during the iteration */
 static int it_done[NIT];
+static int it_pos[NIT];               /* key index the iterator is positioned on, -1 none */
+static int rm_since_pos[NIT];          /* successful removals since the iterator moved to its current position */
 
+/* key k was removed while an open iterator is positioned on it (its node is kept alive by the iterator) */
+static int removed_under_iterator(int k)
+{
+	for (int i = 0; i < NIT; i++) if (it_open[i] && it_pos[i] == k && !present[k]) return 1;
+	return 0;
+}
+static int any_removed_under_iterator(void)
+{
+	for (int k = 0; k < NKEYS; k++) if (removed_under_iterator(k)) return 1;
+	return 0;
+}
+static void kf_guard(int k, int is_rm)
+{
+	(void)k; (void)is_rm;
+#if defined(KF_C18_RM_UNDER_ITERATOR) && (IMPL == 0 || IMPL == 2)
+	/* known finding excluded: hashtable/trie keep the removed entry visible to get/put/rm until the iterator moves on */
+	ASSUME(!removed_under_iterator(k));
+#endif
+#if defined(KF_C18_SKIPLIST_RM_WITH_ZOMBIE) && IMPL == 1
+	/* known finding excluded: skiplist - while an iterator stays positioned on one entry, that entry AND another
+	 * one are removed (in either order): the forward array shared with the removed node is freed */
+	if (is_rm) {
+		for (int i = 0; i < NIT; i++) {
+			if (!it_open[i] || it_pos[i] < 0) continue;
+			int removes_pos = (k == it_pos[i] && present[k]);
+			int pos_already_removed = !present[it_pos[i]];
+			if ((removes_pos && rm_since_pos[i] >= 1) || (pos_already_removed && present[k])) ASSUME(0);
+		}
+	}
+#endif
+}
 static void oracle_put(int k, int v)
 {
 	if (present[k]) {
@@ -280,6 +338,7 @@ static void do_op(int kind, int arg, int n)
 #endif
 	switch (kind) {
 	case 1:
+		kf_guard(k, 0);
 		oracle_put(k, v);
 		M_PUT(m, POOL[k], &vals[v]);
 		EXPECT_DONE("put");
@@ -290,8 +349,9 @@ static void do_op(int kind, int arg, int n)
 		else PROP(g == NULL, "get returns nothing for an absent key");
 		break; }
 	case 3: {
+		kf_guard(k, 1);
 		int was = present[k];
-		if (was) oracle_rm(k);
+		if (was) { oracle_rm(k); for (int i = 0; i < NIT; i++) rm_since_pos[i]++; }
 		int32_t r = M_RM(m, POOL[k]);
 		PROP((r != 0) == (was != 0), "rm reports success exactly when the key was present");
 		EXPECT_DONE("rm");
@@ -303,7 +363,7 @@ static void do_op(int kind, int arg, int n)
 		if (!it_open[it]) {
 			its[it] = M_ITER_CREATE(m, NULL);
 			PROP(its[it] != NULL, "iter_create succeeds");
-			it_open[it] = 1; it_done[it] = 0; it_inserted[it] = 0;
+			it_open[it] = 1; it_done[it] = 0; it_inserted[it] = 0; it_pos[it] = -1;
 			for (int i = 0; i < NKEYS; i++) { it_seen[it][i] = 0; it_present_all[it][i] = present[i]; it_ever[it][i] = present[i]; }
 		}
 		break;
@@ -312,12 +372,13 @@ static void do_op(int kind, int arg, int n)
 			void *val = NULL;
 			const char *key = M_ITER_NEXT(its[it], &val);
 			if (key == NULL) {
-				it_done[it] = 1;
+				it_done[it] = 1; it_pos[it] = -1;
 				for (int i = 0; i < NKEYS; i++)
 					if (it_present_all[it][i]) PROP(it_seen[it][i] >= 1, "a key present for the whole iteration is returned by it");
 			} else {
 				int ki = key_index(key);
 				PROP(ki >= 0 && it_ever[it][ki], "an iterator never returns a key that was never present");
+				it_pos[it] = ki; rm_since_pos[it] = 0;
 				if (ki >= 0) {
 					it_seen[it][ki]++;
 					if (!it_inserted[it]) PROP(it_seen[it][ki] == 1, "with removals only, a key is returned at most once");
@@ -326,7 +387,7 @@ static void do_op(int kind, int arg, int n)
 		}
 		break;
 	case 7:
-		if (it_open[it]) { M_ITER_FREE(its[it]); it_open[it] = 0; }
+		if (it_open[it]) { M_ITER_FREE(its[it]); it_open[it] = 0; it_pos[it] = -1; }
 		break;
 	case 8:
 #if IMPL == 2
@@ -378,7 +439,7 @@ static void reset_all(void)
 {
 	for (int i = 0; i < NKEYS; i++) { present[i] = 0; value_of[i] = 0; }
 	exp_n = exp_i = 0; destroy_mode = destroy_deleted = destroy_freed = 0;
-	for (int i = 0; i < NIT; i++) { it_open[i] = 0; it_done[i] = 0; its[i] = NULL; }
+	for (int i = 0; i < NIT; i++) { it_open[i] = 0; it_done[i] = 0; its[i] = NULL; it_pos[i] = -1; rm_since_pos[i] = 0; }
 }
 
 static void run_scenario(const struct opdef *ops)
@@ -399,9 +460,17 @@ static void run_scenario(const struct opdef *ops)
 #endif
 		, NULL);
 	PROP(nr == 0, "global notifier registered");
+#ifdef PRELOAD
+	/* constant prefix putting the map into an interesting state: two entries, iterator 0 positioned on the first
+	 * entry it returns; the enumerated operations then start from there (reaches 7-operation histories) */
+	do_op(1, 0, 0); do_op(1, 1, 1); do_op(5, 0, 0); do_op(6, 0, 0);
+#endif
 	for (int n = 0; n < NOPS; n++) do_op(ops[n].kind, ops[n].arg, n);
 	/* iterators gone -> dictionary again */
-	for (int i = 0; i < NIT; i++) if (it_open[i]) { M_ITER_FREE(its[i]); it_open[i] = 0; }
+	for (int i = 0; i < NIT; i++) if (it_open[i]) { M_ITER_FREE(its[i]); it_open[i] = 0; it_pos[i] = -1; }
+#if ALPHABET == 18
+	PROP(expect_outstanding() == 0, "every prescribed notification was delivered once the iterators are gone");
+#endif
 	check_dictionary("end");
 	full_iteration(NULL, -1);
 	int remaining = 0;
